@@ -13,6 +13,7 @@ import AnthemModel.Proofs.PrivateExist
 import AnthemModel.Proofs.RenameFresh
 import AnthemModel.Props.C11
 import AnthemModel.Proofs.SimplifyShape
+import AnthemModel.Proofs.ExternalValid
 namespace Anthem
 open Asp C11
 
@@ -1126,19 +1127,14 @@ theorem witnessOutline_of_spec (t : ExternalTask) (S : Specification) (ΓR : The
     · exact Or.inr ⟨hdir, hPR, a0.replacePlaceholders t.phMap, List.mem_map.mpr ⟨a0, ha0, rfl⟩, hc, hns⟩
 
 /-- **C02 at the level of the programs, for every accepted program-vs-program task - placeholders,
-    simplification, proof outline and all.** For the translated theories and the accepted outline `po`
-    of the task: if `rename_conflicting_symbols` changes nothing (`NoConflictAll`, decidable) and no
-    emitted problem (outline problems and final problems) has a countermodel, then in each requested
-    direction every stable model of one program, for input facts and constants that satisfy the
-    user-guide assumptions, has the same public part as some stable model of the other. -/
+    simplification, proof outline and all, with no side condition.** If no emitted problem (outline
+    problems and final problems) has a countermodel, then in each requested direction every stable model
+    of one program, for input facts and constants that satisfy the user-guide assumptions, has the same
+    public part as some stable model of the other. -/
 theorem programs_equivalent_of_valid_problems (t : ExternalTask) (PL : Program)
     (hspec : t.specification = .inl PL) (hbyp : t.bypassTightness = false)
     (fuel : Nat) (ps : List Problem) (h : externalProblems t fuel = .ok ps) :
-    ∃ (ΓL ΓR : Theory) (po : ProofOutline),
-      theoryTranslate t t.phMap fuel PL = .ok ΓL ∧ theoryTranslate t t.phMap fuel t.program = .ok ΓR ∧
-      (Outline.NoConflictAll (assembledGen t (leftSide t ΓL) t.ugAss ΓR) ((rightSide t ΓR).filter isSpec)
-          ((leftSide t ΓL).filter lBwdConc) t.breakEq po →
-        (∀ P ∈ ps, ∀ J ρ, ¬ Refutes J ρ P) →
+    (∀ P ∈ ps, ∀ J ρ, ¬ Refutes J ρ P) →
         ((t.direction = .universal ∨ t.direction = .forward) →
           ∀ (TL : PredI) (fc : FcI) (ρ : Asg),
             (∀ a ∈ t.userGuide.formulas, a.role = .assumption → sat ⟨TL, fc⟩ (a.formula.replacePlaceholders t.phMap) ρ) →
@@ -1150,13 +1146,13 @@ theorem programs_equivalent_of_valid_problems (t : ExternalTask) (PL : Program)
             (∀ a ∈ t.userGuide.formulas, a.role = .assumption → sat ⟨TR, fc⟩ (a.formula.replacePlaceholders t.phMap) ρ) →
             Stable (t.program.substSym (phNu t.phMap fc)) t.userGuide.inputs TR fc →
             ∃ TL : PredI, Stable (PL.substSym (phNu t.phMap fc)) t.userGuide.inputs TL fc ∧
-              ∀ (q : String) (ds : List Dom), (⟨q, ds.length⟩ : Pred) ∈ t.userGuide.publicPreds → (TL q ds ↔ TR q ds))) := by
+              ∀ (q : String) (ds : List Dom), (⟨q, ds.length⟩ : Pred) ∈ t.userGuide.publicPreds → (TL q ds ↔ TR q ds)) := by
   have hpre : precheck t = none := (Outline.externalProblems_outline t fuel ps h).1
-  obtain ⟨left, ΓR, po, hleft, hR, himp⟩ := Outline.external_outline_sound t hbyp fuel ps h
+  obtain ⟨left, ΓR, hleft, hR, himp⟩ := Outline.external_outline_sound_valid t hbyp fuel ps h
   simp only [hspec] at hleft
   obtain ⟨ΓL, hL, rfl⟩ := hleft
-  refine ⟨ΓL, ΓR, po, hL, hR, fun hnc hvalid => ?_⟩
-  have hsO := himp hnc hvalid
+  intro hvalid
+  have hsO := himp hvalid
   have hsound : ∀ (J : Interp) (ρ : Asg), ¬ WitnessPrograms t PL ΓL ΓR J ρ :=
     fun J ρ hw => hsO J ρ (witnessOutline_of_programs t PL hspec hbyp hpre fuel ΓL ΓR hL hR J ρ hw)
   exact ⟨fun hdir => external_forward_sound_programs_core t PL hspec hbyp hpre fuel ΓL ΓR hL hR hdir hsound,
@@ -1166,11 +1162,7 @@ theorem programs_equivalent_of_valid_problems (t : ExternalTask) (PL : Program)
 theorem specification_met_of_valid_problems (t : ExternalTask) (S : Specification)
     (hspec : t.specification = .inr S) (hbyp : t.bypassTightness = false)
     (fuel : Nat) (ps : List Problem) (h : externalProblems t fuel = .ok ps) :
-    ∃ (ΓR : Theory) (po : ProofOutline),
-      theoryTranslate t t.phMap fuel t.program = .ok ΓR ∧
-      (Outline.NoConflictAll (assembledGen t (S.map (SAnn.replacePlaceholders t.phMap)) t.ugAss ΓR)
-          ((rightSide t ΓR).filter isSpec) ((S.map (SAnn.replacePlaceholders t.phMap)).filter lBwdConc) t.breakEq po →
-        (∀ P ∈ ps, ∀ J ρ, ¬ Refutes J ρ P) →
+    (∀ P ∈ ps, ∀ J ρ, ¬ Refutes J ρ P) →
         ((t.direction = .universal ∨ t.direction = .backward) →
           ∀ (TL TR : PredI) (fc : FcI) (ρ : Asg),
             (∀ (q : String) (ds : List Dom), (⟨q, ds.length⟩ : Pred) ∈ t.userGuide.publicPreds → (TL q ds ↔ TR q ds)) →
@@ -1184,13 +1176,13 @@ theorem specification_met_of_valid_problems (t : ExternalTask) (S : Specificatio
             (∀ a ∈ S, lStable a = true → sat ⟨TL, fc⟩ (a.formula.replacePlaceholders t.phMap) ρ) →
             (∀ a ∈ S, lFwdPrem a = true → sat ⟨TL, fc⟩ (a.formula.replacePlaceholders t.phMap) ρ) →
             ∃ TR : PredI, Stable (t.program.substSym (phNu t.phMap fc)) t.userGuide.inputs TR fc ∧
-              ∀ (q : String) (ds : List Dom), (⟨q, ds.length⟩ : Pred) ∈ t.userGuide.publicPreds → (TR q ds ↔ TL q ds))) := by
+              ∀ (q : String) (ds : List Dom), (⟨q, ds.length⟩ : Pred) ∈ t.userGuide.publicPreds → (TR q ds ↔ TL q ds)) := by
   have hpre : precheck t = none := (Outline.externalProblems_outline t fuel ps h).1
-  obtain ⟨left, ΓR, po, hleft, hR, himp⟩ := Outline.external_outline_sound t hbyp fuel ps h
+  obtain ⟨left, ΓR, hleft, hR, himp⟩ := Outline.external_outline_sound_valid t hbyp fuel ps h
   simp only [hspec] at hleft
   subst hleft
-  refine ⟨ΓR, po, hR, fun hnc hvalid => ?_⟩
-  have hsO := himp hnc hvalid
+  intro hvalid
+  have hsO := himp hvalid
   have hsound : ∀ (J : Interp) (ρ : Asg), ¬ WitnessSpec t S ΓR J ρ :=
     fun J ρ hw => hsO J ρ (witnessOutline_of_spec t S ΓR J ρ hw)
   exact ⟨fun hdir => external_backward_sound_specification_core t S hspec hbyp hpre fuel ΓR hR hdir hsound,
